@@ -146,3 +146,22 @@ func init() {
 		}
 	}})
 }
+
+func init() {
+	register(&Property{ID: "DBG10", Patterns: []string{"./..."}, Run: func(p *Program, r *Report) {
+		a := newSQLAST(p, r, "DBG")
+		inScope := a.reachable(p, schemaStatements)
+		for _, tn := range a.named {
+			st, printed, _, fmtDecl, _ := a.structFieldUse(tn)
+			if st == nil || fmtDecl == nil {
+				continue
+			}
+			for i := 0; i < st.NumFields(); i++ {
+				f := st.Field(i)
+				if b, ok := f.Type().Underlying().(*types.Basic); ok && b.Info()&types.IsString != 0 && printed[f] {
+					fmt.Fprintln(os.Stderr, "STRFIELD", tn.Name()+"."+f.Name(), f.Type().String(), "inScope", inScope[tn])
+				}
+			}
+		}
+	}})
+}
